@@ -187,8 +187,8 @@ def struct_unpack(ip, fmt, data):
     used(ip, 'struct.pack/unpack: per-field pk/upk bijection, length, range check -> struct.error (big-endian formats)')
     fields = parse_format(ip, fmt)
     total = sum(n for c, n in fields)
-    if isinstance(data, ByteArray):
-        data = data.val
+    if isinstance(data, SymSeq) and data.tag == 'bytearray':
+        raise Unsupported('struct.unpack of a bytearray')
     if ops.pytype(data) != 'bytes':
         ip.ctx.raise_exc('TypeError', 'a bytes-like object is required')
     if isinstance(data, bytes):
